@@ -195,6 +195,14 @@ def mem_ok_vehicle(sim, v) -> bool:
         return r is None or _grants(r.membership, v)
     if isinstance(st, ServicingTrip):
         return _grants(st.request.membership, v)
+    if isinstance(st, DispatchPoolingTrip):
+        # every request of the plan that is still waiting admits the vehicle
+        ok = True
+        for rid, _phase in st.trip_plan:
+            r = sim.requests.get(rid)
+            if r is not None and not _grants(r.membership, v):
+                ok = False
+        return ok
     return True
 
 
